@@ -615,3 +615,71 @@ Proof.
     cbn [map]. f_equal; [|exact (IH A3 C3)]. rewrite (strip_sep_item y C2). rewrite <- (info_js_agrees lits y A2).
     unfold info_js. rewrite (trimmed_strip _ C2). reflexivity.
 Qed.
+
+(* ------------------------------------------------------------------ the header built from the infos *)
+Definition jhres_of_hres (r : hres) : jhres :=
+  match r with HNone => JHNone | HSome h => JHSome (map Some h) | HErr => JHErr end.
+Definition inj_infos (infos : list (option cinfo)) : list (option jinfo) := map (option_map jinfo_of_cinfo) infos.
+
+Lemma js_idx_name_nat : forall hdr i pos,
+  js_idx_name hdr (Z.of_nat i) pos = Some (match nth_error hdr i with Some n => n | None => colK (S pos) end).
+Proof.
+  intros hdr i pos. unfold js_idx_name. destruct (Z.ltb_spec (Z.of_nat i) (Z.of_nat (length hdr))) as [L|L].
+  - destruct (Z.ltb_spec (Z.of_nat i) 0) as [L0|L0]; [lia|]. rewrite Nat2Z.id.
+    destruct (nth_error hdr i) eqn:E; [reflexivity|]. apply nth_error_None in E. lia.
+  - destruct (nth_error hdr i) eqn:E; [|reflexivity]. assert (i < length hdr)%nat by (apply nth_error_Some; rewrite E; discriminate). lia.
+Qed.
+
+Lemma py_idx_name_nat : forall hdr i pos,
+  py_idx_name hdr (Z.of_nat i) pos = Some (match nth_error hdr i with Some n => n | None => colK (S pos) end).
+Proof.
+  intros hdr i pos. unfold py_idx_name. destruct (Z.ltb_spec (Z.of_nat i) (Z.of_nat (length hdr))) as [L|L].
+  - destruct (Z.ltb_spec (Z.of_nat i) 0) as [L0|L0]; [lia|]. rewrite Nat2Z.id.
+    destruct (nth_error hdr i) eqn:E; [reflexivity|]. apply nth_error_None in E. lia.
+  - destruct (nth_error hdr i) eqn:E; [|reflexivity]. assert (i < length hdr)%nat by (apply nth_error_Some; rewrite E; discriminate). lia.
+Qed.
+
+Lemma build_header_js_inj : forall ih jh infos out,
+  build_header_js ih jh (inj_infos infos) (map Some out) = map Some (build_header ih jh infos out).
+Proof.
+  intros ih jh. induction infos as [|q infos IH]; intro out; [reflexivity|]. unfold inj_infos in *. cbn [map build_header_js build_header].
+  destruct q as [[[[|]|]|[|] i|n|a]|]; cbn [option_map jinfo_of_cinfo]; rewrite ?js_idx_name_nat, ?map_length;
+    try destruct (nth_error ih i); try destruct (nth_error jh i); rewrite <- IH; rewrite ?map_app; reflexivity.
+Qed.
+
+Lemma build_header_pyz_inj : forall ih jh infos out,
+  build_header_pyz ih jh (inj_infos infos) out = Some (build_header ih jh infos out).
+Proof.
+  intros ih jh. induction infos as [|q infos IH]; intro out; [reflexivity|]. unfold inj_infos in *. cbn [map build_header_pyz build_header].
+  destruct q as [[[[|]|]|[|] i|n|a]|]; cbn [option_map jinfo_of_cinfo]; rewrite ?py_idx_name_nat;
+    try destruct (nth_error ih i); try destruct (nth_error jh i); rewrite <- IH; reflexivity.
+Qed.
+
+Lemma existsb_inj : forall infos,
+  existsb is_star_jinfo (inj_infos infos) = existsb is_star_info infos /\ existsb is_alias_jinfo (inj_infos infos) = existsb is_alias_info infos.
+Proof.
+  induction infos as [|q infos [IH1 IH2]]; [split; reflexivity|]. unfold inj_infos in *. cbn [map existsb]. rewrite IH1, IH2.
+  split; destruct q as [[| | |]|]; reflexivity.
+Qed.
+
+Theorem select_output_header_js_inj : forall ih jh infos,
+  select_output_header_js ih jh (inj_infos infos) = jhres_of_hres (select_output_header ih jh infos).
+Proof.
+  intros ih jh infos. unfold select_output_header_js, select_output_header. destruct (existsb_inj infos) as [-> ->].
+  destruct ih as [i|].
+  - cbn [jhres_of_hres]. f_equal. exact (build_header_js_inj i _ infos (@nil str)).
+  - destruct (existsb is_star_info infos && existsb is_alias_info infos); [reflexivity|].
+    destruct (negb (existsb is_alias_info infos)); [reflexivity|]. cbn [jhres_of_hres]. f_equal. exact (build_header_js_inj (@nil str) (@nil str) infos (@nil str)).
+Qed.
+
+(* the header of a rendered select list: the JS derivation from the text = the derivation from the shapes (C07's model) *)
+Theorem header_js_agrees : forall (lits : list str) (items : list ritem) (ih jh : option (list str)) (dc : bool), items <> [] -> forallb (item_ok lits) items = true ->
+  option_map (fun qs : list (option jinfo) => select_output_header_js ih jh (if dc then None :: qs else qs)) (infos_js (src_text items) lits)
+  = Some (jhres_of_hres (output_header ih jh (HQSelect (map shape items) dc))).
+Proof.
+  intros lits items ih jh dc Hne H. rewrite (infos_js_agrees lits items Hne H). cbn [option_map output_header]. f_equal.
+  unfold expected_infos. fold (inj_infos (map info_of (map shape items))). destruct dc.
+  - change (None :: inj_infos (map info_of (map shape items))) with (inj_infos (None :: map info_of (map shape items))).
+    apply select_output_header_js_inj.
+  - apply select_output_header_js_inj.
+Qed.
